@@ -78,7 +78,7 @@ void BitSequenceRRR::build(const uint *bitseq, size_t len, uint sample_rate) {
   O = new uint[O_len];
   for (uint i = 0; i < O_len; i++)
     O[i] = 0;
-  uint O_pos = 0;
+  size_t O_pos = 0;
   for (uint i = 0; i < C_len; i++) {
     uint value = (ushort)get_var_field(
         bitseq, i * BLOCK_SIZE, min((uint)len - 1, (i + 1) * BLOCK_SIZE - 1));
@@ -171,7 +171,7 @@ size_t BitSequenceRRR::rank1(size_t i) const {
   uint nearest_sampled_value = i / BLOCK_SIZE / sample_rate;
   uint sum =
       get_field(C_sampling, C_sampling_field_bits, nearest_sampled_value);
-  uint pos_O = get_field(O_pos, O_pos_field_bits, nearest_sampled_value);
+  size_t pos_O = get_field(O_pos, O_pos_field_bits, nearest_sampled_value);
   uint pos = i / BLOCK_SIZE;
   uint k = nearest_sampled_value * sample_rate;
   if (k % 2 == 1 && k < pos) {
